@@ -35,7 +35,15 @@ CONSTANTS OFFS,        \* offsets used for cell references
           IMMS,        \* immediates (felt values)
           CELLVALS,    \* values a generated memory cell may hold (besides unknown)
           LAYOUTS,     \* set of [pc, ap, fp] register layouts
+          BLAKE_OFFS,  \* offsets used for the three cell references of blake2s instructions
           BUG          \* "none" or the name of a deliberately wrong variant (self-test)
+
+\* cell values for blake2s instructions: a counter and pointers into three dedicated segments
+\* (state, message, output arrays), so that the success path is reachable without overlaps
+BLAKEVALS == {[t |-> "i", a |-> 0, c |-> 64, seg |-> 0, off |-> 0],
+              [t |-> "p", a |-> 0, c |-> 0, seg |-> 2, off |-> 0],
+              [t |-> "p", a |-> 0, c |-> 0, seg |-> 3, off |-> 0],
+              [t |-> "p", a |-> 0, c |-> 0, seg |-> 4, off |-> 0]}
 
 ---------------------------------------------------------------------------
 (* Values *)
@@ -122,6 +130,7 @@ OutOfModel == [ok |-> TRUE, oom |-> TRUE]
 (* CASM instructions (instructions.rs / operand.rs) as uniform records *)
 NoCell == [reg |-> "ap", off |-> 0]
 CellRefs == [reg : {"ap", "fp"}, off : OFFS]
+BlakeRefs == [reg : {"ap", "fp"}, off : BLAKE_OFFS]
 
 \* ResOperand
 OpDeref(c)          == [k |-> "deref", c |-> c, off2 |-> 0, op |-> "add", bk |-> "deref", bc |-> NoCell, imm |-> None]
@@ -150,7 +159,7 @@ Instrs ==
   \cup {Ins("jump", inc, NoCell, b, rel, FALSE, NoCell, NoCell) : inc \in BOOLEAN, b \in DerefOrImms, rel \in BOOLEAN}
   \cup {Ins("jnz", inc, a, b, FALSE, FALSE, NoCell, NoCell) : inc \in BOOLEAN, a \in CellRefs, b \in DerefOrImms}
   \cup {Ins("ret", FALSE, NoCell, NoOp, FALSE, FALSE, NoCell, NoCell)}
-  \cup {Ins("blake", TRUE, a, NoOp, FALSE, fin, st, msg) : a \in CellRefs, fin \in BOOLEAN, st \in CellRefs, msg \in CellRefs}
+  \cup {Ins("blake", TRUE, a, NoOp, FALSE, fin, st, msg) : a \in BlakeRefs, fin \in BOOLEAN, st \in BlakeRefs, msg \in BlakeRefs}
 
 HasImm(b) == b.bk = "imm"
 \* instructions.rs: op_size
@@ -497,6 +506,7 @@ AssembleB(i) ==
   CASE BUG = "jnz_off1" /\ i.body = "jnz" -> [r EXCEPT !.op0reg = "ap"]            \* harmless? no: reads [ap-1]
     [] BUG = "call_abs_flag" /\ i.body = "call" /\ ~i.rel /\ i.b.k = "deref" -> [r EXCEPT !.pcu = "JumpRel"]
     [] BUG = "dderef_reg" /\ i.b.k = "dderef" -> [r EXCEPT !.op0reg = "fp"]
+    [] BUG = "blake_dst_reg" /\ i.body = "blake" -> [r EXCEPT !.dstreg = i.st.reg]
     [] OTHER -> r
 
 ---------------------------------------------------------------------------
@@ -532,7 +542,7 @@ Init ==
   /\ ins \in Instrs
   /\ \E lay \in LAYOUTS :
        LET direct == DirectCells(ins, lay) \ {FrameCell(lay)} IN
-       \E m \in [direct -> CELLVALS \cup {None}] :
+       \E m \in [direct -> (IF ins.body = "blake" THEN BLAKEVALS ELSE CELLVALS) \cup {None}] :
        \E fpv \in (IF ins.body = "ret" THEN {P(0, lay.pc[2] + 7), I(5)} ELSE {P(0, lay.pc[2] + 7)}) :   \* [fp-1]: the return pc
          LET outerA == Cell([ap |-> lay.ap, fp |-> lay.fp], ins.b.c.reg, ins.b.c.off)
              m1 == [a \in direct \cup {FrameCell(lay)} |-> IF a = FrameCell(lay) THEN fpv ELSE m[a]]
